@@ -60,7 +60,9 @@ fn strategy_object(args: &Args, ev: &mut Evidence) {
                 let (min, max) = (*min, *max);
                 let s2 = s.clone();
                 let r = std::panic::catch_unwind(move || {
-                    let mut st = doubling_retry_strategy(min, max);
+                    // the default strategy is documented as doubling from 1 s to 60 s: use the named
+                    // constructor for that pair so that it is checked as well
+                    let mut st = if min == Duration::from_secs(1) && max == Duration::from_secs(60) { default_retry_strategy() } else { doubling_retry_strategy(min, max) };
                     let mut k: u32 = 0; // consecutive failures since the last reset
                     for (pos, op) in s2.iter().enumerate() {
                         match op {
@@ -343,6 +345,70 @@ async fn task_level(seed: u64, n: u64, tls: bool) -> (Evidence, Vec<(String, Str
     (ev, problems)
 }
 
+/// A delay too long for any clock (strategy saturated at Duration::MAX): it is announced, it is
+/// waited (i.e. no further attempt), and the task stays responsive meanwhile.
+async fn huge_delay(ev: &mut Evidence) -> Vec<(String, String)> {
+    let mut problems = vec![];
+    let port = crate::net::free_port(IpAddr::V4(Ipv4Addr::LOCALHOST));
+    let (gtx, mut grx) = mpsc::unbounded_channel::<GateMsg>();
+    let (channel, task) = create_tcp_client_task_with_options(
+        HostAddr::ip(IpAddr::V4(Ipv4Addr::LOCALHOST), port),
+        doubling_retry_strategy(Duration::MAX, Duration::MAX),
+        Some(Box::new(crate::c13::Gate { tx: gtx })),
+        ClientOptions::default(),
+    );
+    let jh = tokio::spawn(task.run());
+    let _ = channel.enable().await;
+    let mut seen = vec![];
+    let mut announced = None;
+    let t0 = Instant::now();
+    while t0.elapsed() < Duration::from_secs(5) {
+        match tokio::time::timeout(Duration::from_millis(500), grx.recv()).await {
+            Ok(Some((st, _, ack))) => {
+                seen.push(state_name(&st));
+                let _ = ack.send(());
+                if let ClientState::WaitAfterFailedConnect(d) = st {
+                    announced = Some(d);
+                    break;
+                }
+            }
+            Ok(None) => break,
+            Err(_) => {}
+        }
+    }
+    ev.eval();
+    ev.count("huge_delay_scripts", 1);
+    if announced != Some(Duration::MAX) {
+        problems.push(("task:huge_delay:not_announced".into(), format!("strategy (MAX, MAX), connection refused: states {seen:?}, announced {announced:?}")));
+    }
+    // responsive while waiting
+    tokio::time::sleep(Duration::from_millis(50)).await;
+    let r = tokio::time::timeout(Duration::from_secs(3), channel.read_coils(RequestParam::new(UnitId::new(1), Duration::from_millis(50)), AddressRange::try_from(0, 1).unwrap())).await;
+    if !matches!(r, Ok(Err(RequestError::NoConnection))) {
+        problems.push(("task:huge_delay:request_during_wait".into(), format!("a request during a wait of Duration::MAX completed with {r:?}")));
+    }
+    let _ = channel.shutdown().await;
+    let drain = tokio::spawn(async move {
+        let mut v = vec![];
+        while let Some((st, _, ack)) = grx.recv().await {
+            v.push(state_name(&st));
+            let _ = ack.send(());
+        }
+        v
+    });
+    match tokio::time::timeout(Duration::from_secs(5), jh).await {
+        Ok(Ok(_)) => {}
+        Ok(Err(e)) => problems.push((format!("task:huge_delay:{}", if e.is_panic() { "panic" } else { "cancelled" }), format!("client task with a retry delay of Duration::MAX ended abnormally: {e}"))),
+        Err(_) => problems.push(("task:huge_delay:task_did_not_terminate".into(), "client task did not end within 5 s after shutdown during a wait of Duration::MAX".into())),
+    }
+    let rest = tokio::time::timeout(Duration::from_secs(2), drain).await.ok().and_then(|r| r.ok()).unwrap_or_default();
+    if rest.last() != Some(&"Shutdown") && problems.is_empty() {
+        problems.push(("task:huge_delay:no_shutdown_state".into(), format!("states after shutdown: {rest:?}")));
+    }
+    ev.class("wait|WaitAfterFailedConnect|Duration::MAX");
+    problems
+}
+
 fn call_name(c: &Call) -> String {
     match c {
         Call::Reset => "reset".into(),
@@ -415,6 +481,14 @@ pub fn run(args: &Args) -> i32 {
                     ev.violation(sig, what, json!({"leg": "rtu_server"}));
                 }
             }
+        }
+    }
+    {
+        let mut e = Evidence::new();
+        let problems = rt.block_on(huge_delay(&mut e));
+        ev.merge(e);
+        for (sig, what) in problems {
+            ev.violation(sig, what, json!({"leg": "huge_delay"}));
         }
     }
     // measured from outside: a serial port / RTU server port that is lost is re-opened no earlier
